@@ -102,6 +102,18 @@ static toon::toon_options toon_opts(const mj::Value& c) {
     return r;
 }
 
+// TOON has one number kind: a double with an integral value is written with integer digits and read back as an integer
+// (1.0 -> "1", 2.5e17 -> "250000000000000000"), so numbers are compared by value: integral doubles in the int64 range are
+// normalised to integers on both sides
+static mj::Value toon_norm(const mj::Value& w) {
+    const std::string& k = w[0].str();
+    if (k == "dbl") { uint64_t b = strtoull(w[1].str().c_str(), nullptr, 16); double d; memcpy(&d, &b, 8);
+        if (std::isfinite(d) && d == std::floor(d) && std::fabs(d) < 9.2e18) { mj::Value r = mj::Value::array(); r.push("int"); r.push((int64_t)d); return r; }
+        return w; }
+    if (k == "arr") { mj::Value r = mj::Value::array(); r.push("arr"); mj::Value a = mj::Value::array(); for (auto& e : w[1].a) a.push(toon_norm(e)); r.push(a); return r; }
+    if (k == "obj") { mj::Value r = mj::Value::array(); r.push("obj"); mj::Value a = mj::Value::array(); for (auto& kv : w[1].a) { mj::Value p = mj::Value::array(); p.push(kv[0]); p.push(toon_norm(kv[1])); a.push(p); } r.push(a); return r; }
+    return w;
+}
 template <class Json>
 static void toon_case(size_t idx, const mj::Value& c, const char* flavour, bool trace) {
     toon::toon_options opt = toon_opts(c);
@@ -113,13 +125,13 @@ static void toon_case(size_t idx, const mj::Value& c, const char* flavour, bool 
         try {
             Json d = toon::decode_toon<Json>(text, opt);
             dec = jc::doc_wire(d);
-            if (!(dec == jc::canon_doc(c["v"]))) fail(idx, c, flavour, "string", "roundtrip", dec, text);
+            if (!(toon_norm(dec) == toon_norm(jc::canon_doc(c["v"])))) fail(idx, c, flavour, "string", "roundtrip", dec, text);
         } catch (const std::exception& e) { dec.push("error"); dec.push(e.what()); fail(idx, c, flavour, "string", "decode-error", mj::Value(e.what()), text); }
     } else dec.push("none");
     if (trace) {
-        mj::Value t = mj::Value::object(); t.set("k", "toon"); t.set("idx", (int64_t)idx); t.set("v", jc::canon_doc(c["v"]));
+        mj::Value t = mj::Value::object(); t.set("k", "toon"); t.set("idx", (int64_t)idx); t.set("v", toon_norm(jc::canon_doc(c["v"])));
         t.set("o", [&] { mj::Value o = mj::Value::object(); o.set("indent", c["indent"]); o.set("delimiter", c["delim"]); return o; }());
-        t.set("enc", enc_ok); t.set("text", jc::cps_of(text)); t.set("dec", dec); t.set("dev", c["dev"]);
+        t.set("enc", enc_ok); t.set("text", jc::cps_of(text)); t.set("dec", dec.size() && dec[0].is_str() && dec[0].str() != "error" && dec[0].str() != "none" ? toon_norm(dec) : dec); t.set("dev", c["dev"]);
         trace_line(t, c["dev"].size() > 0);
     }
     // route 2: decode from a stream (the documented ostream overload of encode_toon does not compile
@@ -129,7 +141,7 @@ static void toon_case(size_t idx, const mj::Value& c, const char* flavour, bool 
     try {
         std::istringstream is(text); Json d = toon::decode_toon<Json>(is, opt);
         mj::Value w = jc::doc_wire(d);
-        if (!(w == jc::canon_doc(c["v"]))) fail(idx, c, flavour, "stream", "roundtrip", w, text);
+        if (!(toon_norm(w) == toon_norm(jc::canon_doc(c["v"])))) fail(idx, c, flavour, "stream", "roundtrip", w, text);
     } catch (const std::exception& e) { fail(idx, c, flavour, "stream", "error", mj::Value(e.what()), text); }
 }
 
